@@ -350,6 +350,23 @@ def check_property(pid, tier, seed, reg, results_cache):
                 cfuts[key] = ex.submit(run_canary, un, results_cache[un])
         for key, f in cfuts.items():
             results_cache[key] = f.result()
+        # thorough: every unit once more under a different solver seed; a proof that does not survive it is unstable
+        sfuts = {}
+        if tier == 'thorough':
+            s2 = str(seed if seed else 1)
+            for un in units:
+                key = 'seed2:' + un
+                if key not in results_cache:
+                    sfuts[key] = ex.submit(run_verus_unit, un, tier, seed, ('--smt-option', 'smt.random_seed=' + s2))
+            for key, f in sfuts.items():
+                results_cache[key] = f.result()
+    unstable = []
+    if tier == 'thorough':
+        for un in units:
+            a, b = results_cache[un], results_cache['seed2:' + un]
+            if a['status'] == 'ok' and not a['errors'] and (b['errors'] or b['status'] != 'ok'):
+                unstable.append({'unit': un, 'why': ['proof does not survive smt.random_seed (unstable, not a violation): ' +
+                                                     '; '.join((e.get('text') or '')[:120] for e in b['errors'][:3]) + ' '.join(b.get('undecided', []))[:200]]})
     kres = []
     if kani_units:
         import kani_runner
@@ -364,7 +381,7 @@ def check_property(pid, tier, seed, reg, results_cache):
     known, fixed = known_findings()
     violations = []
     known_seen = []
-    undecided = []
+    undecided = list(unstable)
     fns_evidence = []
     obligations = discharged = 0
     smt_ms = 0
